@@ -36,6 +36,14 @@ def _cases(tier, rng):
     yield {'kind': 'mux', 'term': [['group_by', ['mod', 2], [['scan', ['append_fst'], {'t': [{'l': []}, 0]}, True, None]]]], 'items': [1, 2, 3, 4, 5]}
     yield {'kind': 'mux', 'term': [['roll', 2, 2, [['scan', ['append_fst'], {'t': [{'l': []}, 0]}, True, None]]]], 'items': [1, 2, 3, 4, 5]}
     yield {'kind': 'mux', 'term': [['scan', ['add'], 0, False, None], ['scan', ['add'], 0, False, None]], 'items': [1, 2, 3, 4], 'two_stores': 1}
+    # two keys, one folding integers a double cannot represent, the other fed floats (whatever happens to the float key -- on an
+    # int-typed state its writes are rejected and ignored here --, the integer key's folds are those of its own items)
+    BIG = [2 ** 53 + 1, 2 ** 53 + 3, 2 ** 60 + 7, 1, 3, 5, -(2 ** 53) - 1]
+    for _ in range({'quick': 30, 'thorough': 200, 'search': 20}[tier]):
+        items = [rng.choice(BIG) if rng.random() < 0.65 else {'f': enc(rng.choice([0.5, 1.5, 2.0, 1e300]))['f']} for _ in range(rng.choice([3, 5, 8, 12]))]
+        acc = rng.choice([['add'], ['max'], ['last']]) if rng.random() < 0.7 else ['add']
+        yield {'kind': 'mux', 'term': [['group_by', ['is_float'], [['scan', acc, rng.choice([0, 1]), False, None], ['ignore']]]],
+               'items': items, 'no_model': True, 'isolate': 1}
     n = {'quick': 1500, 'thorough': 10000, 'search': 600}[tier]
     for _ in range(n):
         r = rng.random()
@@ -84,6 +92,17 @@ def _oracle(case, r):
     if r.get('raised') or muxprop.has_fatal(r['chunks']):
         return None
     t = case['term']
+    if case.get('isolate'):
+        from catalog import fn2
+        g = fn2(t[0][2][0][1])
+        acc = t[0][2][0][2]
+        for j, x in enumerate(case['items']):
+            if isinstance(x, int):
+                acc = g(acc, x)
+                if r['chunks'][j + 1] != [{'i': acc}]:
+                    return ('%s over %s: while the integer item #%d was processed the output was %s, the fold of the integer key\'s own items is %s'
+                            % (t, case['items'], j, str(r['chunks'][j + 1])[:200], acc))
+        return None
     try:
         if t and t[0][0] in ('group_by', 'roll', 'split'):
             # every inner lifetime (group, window, segment): outputs at the inner tail vs the fold of its own items
@@ -117,6 +136,18 @@ def _oracle(case, r):
     if got != want:
         return '%s over %s: real %s, fold semantics %s' % (t, case['items'], str(got)[:300], str(want)[:300])
     return None
+
+
+def model_cmds(case):      # noqa: F811
+    return [] if case.get('no_model') else muxprop.model_cmds(case)
+
+
+def model_result(case, ans):      # noqa: F811
+    return {} if case.get('no_model') else muxprop.model_result(case, ans)
+
+
+def compare(case, r, m):      # noqa: F811
+    return None if case.get('no_model') else muxprop.compare(case, r, m)
 
 
 def nontrivial(case, r):
